@@ -28,6 +28,9 @@ Qed.
 Lemma qual_lexeme q : lexeme (sp_qual q) (qkind q).
 Proof. destruct q; apply ident_lexeme'; reflexivity. Qed.
 
+Lemma abi_lexeme a : lexeme (sp_abi a) (hkind (HAbi a)).
+Proof. destruct a; apply ident_lexeme'; reflexivity. Qed.
+
 Lemma word_lexeme w : lexeme (sp_word w) (wkind w).
 Proof. destruct w as [[]|[]|]; apply ident_lexeme'; reflexivity. Qed.
 
@@ -65,21 +68,36 @@ Proof.
     - destruct (ident_okb n) eqn:E; [|congruence].
       constructor; [apply lbr_lexeme|]. constructor; [apply ident_ok_lexeme, ident_okb_ok; exact E|].
       constructor; [apply rbr_lexeme|]. constructor. }
-  induction 1 as [hdr arrays H1 H2 | hdr arrays d' H1 H2 Hd IH Hs]; cbn [sdecl_toks].
-  - rewrite app_nil_l. apply Forall_app. split; auto.
-  - apply Forall_app. split; [auto|]. apply Forall_app. split; [|auto].
+  induction 1 as [hdr arrays H1 H2 | hdr arrays d' H1 H2 Hd IH Hs | hdr d' abi void H1 Hd IH Hs];
+    cbn [sdecl_toks map List.concat fs_toks].
+  - rewrite !app_nil_l. apply Forall_app. split; auto.
+  - rewrite (app_nil_l (List.concat _)). apply Forall_app. split; [auto|]. apply Forall_app. split; [|auto].
     constructor; [apply lpar_lexeme|]. apply Forall_app. split; [exact IH|].
     constructor; [apply rpar_lexeme | constructor].
+  - rewrite !app_nil_r. apply Forall_app. split; [auto|]. apply Forall_app. split.
+    + destruct abi as [a|].
+      * constructor; [apply lpar_lexeme|]. constructor; [exact (abi_lexeme a)|].
+        apply Forall_app. split; [exact IH|]. constructor; [apply rpar_lexeme | constructor].
+      * constructor; [apply lpar_lexeme|]. apply Forall_app. split; [exact IH|].
+        constructor; [apply rpar_lexeme | constructor].
+    + constructor; [apply lpar_lexeme|]. destruct void; cbn [app].
+      * constructor; [exact (word_lexeme (WB Bvoid))|]. constructor; [apply rpar_lexeme | constructor].
+      * constructor; [apply rpar_lexeme | constructor].
 Qed.
 
 Lemma sdecl_tokens : forall gl d, sdecl gl d -> decl_tokens d = map snd (sdecl_toks d).
 Proof.
   assert (Ha : forall arrays, List.concat (map alen_tokens arrays) = map snd (List.concat (map alen_toks arrays))).
   { induction arrays as [|a arrays IH]; cbn; [reflexivity|]. rewrite map_app, <- IH. destruct a; reflexivity. }
-  induction 1 as [hdr arrays H1 H2 | hdr arrays d' H1 H2 Hd IH Hs]; cbn [decl_tokens sdecl_toks].
+  induction 1 as [hdr arrays H1 H2 | hdr arrays d' H1 H2 Hd IH Hs | hdr d' abi void H1 Hd IH Hs];
+    cbn [decl_tokens sdecl_toks].
   - cbn. rewrite !map_app, map_map. cbn. rewrite Ha. reflexivity.
-  - rewrite IH, Ha. repeat rewrite map_app. rewrite map_map. cbn [map snd app].
-    repeat rewrite <- app_assoc. reflexivity.
+  - rewrite IH, Ha. cbn [map List.concat app].
+    do 3 (rewrite ?map_app, ?map_map; cbn [map snd app]). repeat rewrite <- app_assoc. reflexivity.
+  - rewrite IH. cbn [map List.concat app fs_toks fs_tokens]. rewrite !app_nil_r.
+    destruct abi as [a|];
+      do 3 (rewrite ?map_app, ?map_map; cbn [map snd app]); repeat rewrite <- app_assoc;
+      destruct void; reflexivity.
 Qed.
 
 Lemma spec_tokens : forall q1 ws,
@@ -128,13 +146,20 @@ Proof.
     rewrite Hd. destruct (denote_py g t1); reflexivity.
 Qed.
 
+Lemma void_param : denote_base g [SB Bvoid] = Some MVoid.
+Proof. reflexivity. Qed.
+
 Lemma py_decl_sdecl : forall d, sdecl gl d -> forall inner,
   denote_py g (py_decl d inner) = option_map (apply_decl gl d) (denote_py g inner).
 Proof.
-  induction 1 as [hdr arrays H1 H2 | hdr arrays d' H1 H2 Hd IH Hs]; intros inner;
+  induction 1 as [hdr arrays H1 H2 | hdr arrays d' H1 H2 Hd IH Hs | hdr d' abi void H1 Hd IH Hs]; intros inner;
     cbn [py_decl apply_decl fold_right].
   - rewrite arrays_sem by exact H2. rewrite wrap_stars_sem. destruct (denote_py g inner); reflexivity.
   - rewrite IH. rewrite arrays_sem by exact H2. rewrite wrap_stars_sem. destruct (denote_py g inner); reflexivity.
+  - rewrite IH. cbn [py_fs]. destruct void.
+    + cbn [denote_py]. rewrite void_param. cbn [as_func_arg option_map negb andb is_mvoid].
+      rewrite wrap_stars_sem. destruct (denote_py g inner); reflexivity.
+    + cbn [denote_py andb]. rewrite wrap_stars_sem. destruct (denote_py g inner); reflexivity.
 Qed.
 
 Lemma words_of_words : forall ws, words_of (map stok_of_word ws) = Some ws.
@@ -207,10 +232,15 @@ Proof.
   assert (Hs : forall hdr, nstars hdr <= List.length hdr).
   { intros. unfold nstars. induction hdr as [|h hdr IH]; cbn; [lia|]. destruct h; cbn; lia. }
   intros gl. unfold ntoks.
-  induction 1 as [hdr arrays H1 H2 | hdr arrays d' H1 H2 Hd [IH1 IH2] Hst]; cbn [cost nops sdecl_toks].
-  - rewrite app_nil_l, app_length, map_length. pose proof (Ha arrays). pose proof (Hs hdr). lia.
-  - rewrite !app_length, map_length. cbn [List.length].
+  induction 1 as [hdr arrays H1 H2 | hdr arrays d' H1 H2 Hd [IH1 IH2] Hst | hdr d' abi void H1 Hd [IH1 IH2] Hst];
+    cbn [cost nops sdecl_toks map List.concat fs_toks].
+  - rewrite !app_nil_l, app_length, map_length. pose proof (Ha arrays). pose proof (Hs hdr).
+    cbn [List.length]. lia.
+  - rewrite !app_length, map_length. cbn [List.length app].
     pose proof (Ha arrays). pose proof (Hs hdr). unfold kinds_texts, str in *. lia.
+  - rewrite !app_length, map_length. cbn [List.length app list_sum map fold_right]. rewrite ?app_length.
+    pose proof (Hs hdr). unfold kinds_texts, str in *.
+    destruct abi; destruct void; cbn [List.length app]; rewrite ?app_length; cbn [List.length]; lia.
 Qed.
 
 Lemma te_tokens_TE specs d : te_tokens (TE specs d) = List.concat (map stok_tokens specs) ++ decl_tokens d.
@@ -223,6 +253,25 @@ Proof.
   - inversion E; subst. inversion Hl as [|? ? Hx Hl']; subst. unfold is_lex in Hx. cbn [fst snd] in Hx.
     destruct Hx as [Hn _]. exact Hn.
   - inversion E as [[E1 E2]]. inversion Hl as [|? ? Hx Hl']; subst. apply (IH t Hl' E2).
+Qed.
+
+(* the first token of a declarator may follow a base type *)
+Lemma sdecl_first_follower gl d k s rest : sdecl gl d -> sdecl_toks d = (k, s) :: rest -> follower k.
+Proof.
+  intros Hd Ed.
+  destruct Hd as [hdr arrays H1 H2|hdr arrays d' H1 H2 Hd' Hs|hdr d' abi void H1 Hd' Hs]; cbn [sdecl_toks] in Ed.
+  - rewrite !app_nil_l in Ed. destruct hdr as [|h hdr].
+    + destruct arrays as [|a arrays]; [discriminate|]. destruct a; inversion Ed; right; left; eexists; reflexivity.
+    + cbn in H1. apply andb_true_iff in H1 as [H1 _]. inversion Ed.
+      destruct h as [|[]|]; try discriminate; cbn; unfold follower; eauto.
+  - destruct hdr as [|h hdr].
+    + inversion Ed. right; left; eexists; reflexivity.
+    + cbn in H1. apply andb_true_iff in H1 as [H1 _]. inversion Ed.
+      destruct h as [|[]|]; try discriminate; cbn; unfold follower; eauto.
+  - destruct hdr as [|h hdr].
+    + destruct abi; inversion Ed; right; left; eexists; reflexivity.
+    + cbn in H1. apply andb_true_iff in H1 as [H1 _]. inversion Ed.
+      destruct h as [|[]|]; try discriminate; cbn; unfold follower; eauto.
 Qed.
 
 (* ---------------------------------------------------------------- the theorem *)
@@ -290,15 +339,7 @@ Proof.
     - unfold ntoks in Hfinal. rewrite Ed in Hfinal. cbn in Hfinal. rewrite Nat.add_0_r in Hfinal.
       rewrite Hfinal. left. reflexivity.
     - apply (At_cons toks) in Hat as [H0 _]. rewrite (At_K toks _ _ H0). cbn [fst].
-      destruct Hd as [hdr arrays H1 H2|hdr arrays d' H1 H2 Hd' Hs]; cbn [sdecl_toks] in Ed.
-      + rewrite app_nil_l in Ed. destruct hdr as [|h hdr].
-        * destruct arrays as [|a arrays]; [discriminate|]. destruct a; inversion Ed; right; left; eexists; reflexivity.
-        * cbn in H1. apply andb_true_iff in H1 as [H1 _]. inversion Ed.
-          destruct h as [|[]|]; try discriminate; cbn; unfold follower; eauto.
-      + destruct hdr as [|h hdr].
-        * inversion Ed. right; left; eexists; reflexivity.
-        * cbn in H1. apply andb_true_iff in H1 as [H1 _]. inversion Ed.
-          destruct h as [|[]|]; try discriminate; cbn; unfold follower; eauto. }
+      exact (sdecl_first_follower _ _ _ _ _ Hd Ed). }
   pose proof (parse_complete_specs osz (ctx_of g) input toks L q1 ws f1 0 [] Hkat Hne Hfol) as Hspec.
   assert (Hf1 : List.length q1 + List.length ws + 2 < f1) by lia.
   specialize (Hspec Hf1).
